@@ -192,6 +192,7 @@ func (c *Ctx) verifyFunc(fn *ssa.Function, fc *FuncContract, prop string, forceN
 	}
 	// pass 1: discover loop-written heap arrays
 	vc1 := c.newVC(fn, fc)
+	vc1.fpUF = fc.has("fparith")
 	ex1 := &Exec{vc: vc1, fn: fn, prop: prop, pass: 1, nopanic: false}
 	ex1.indexCalls()
 	vc1.onWrite = func(name string) {
@@ -201,6 +202,7 @@ func (c *Ctx) verifyFunc(fn *ssa.Function, fc *FuncContract, prop string, forceN
 	}
 	ex1.run()
 	vc = c.newVC(fn, fc)
+	vc.fpUF = fc.has("fparith")
 	for k, v := range vc1.arrSort {
 		vc.arrSort[k] = v
 	}
@@ -255,6 +257,8 @@ func main() {
 		}
 	case "check":
 		os.Exit(cmdCheck(os.Args[2:]))
+	case "mutants":
+		os.Exit(cmdMutants(os.Args[2:]))
 	default:
 		fmt.Fprintln(os.Stderr, "unknown command")
 		os.Exit(2)
